@@ -39,6 +39,11 @@ def run(ctx):
     for f in facts.need(RS + "_clean_and_recover_files", "A", floor=2):
         recover(ctx, facts, f)
     stream_write(ctx, facts)
+    config_roundtrip(ctx, facts)
+    # the size check and the rename act on flushed bytes: every write marks the stream dirty, flush_sink is skipped only when clean (= C06.R5)
+    from rules import c06
+    from rules.c09 import Renamed
+    c06.r5(Renamed(ctx, "C06.R5", "C14.R6"), facts, "A")
     ctx.note("RotatingSink<JsonFileSink> adds the size of the text statement, not of the JSON line, to the tracked size (observed; value clause)")
 
 
@@ -745,3 +750,54 @@ def recover(ctx, facts, f):
         ctx.ob("C14.R5d", "RotatingSink<%s>::ctor:recover-open-register" % inst(f), ok and bool(sz),
                "start-up recovers the existing files, then opens the base file in the configured mode, registers it as newest and takes "
                "its current size (an appended-to file counts towards the limit)", fn=c)
+
+
+def config_roundtrip(ctx, facts):
+    """R7: a limit the user sets is the limit in effect. For every setter of RotatingFileSinkConfig: a field that is assigned from a
+    parameter receives that parameter itself (or a named conversion of it) — not a re-interpretation of particular values — on every
+    path that does not end in a throw; the getter of the same name returns that field. (A value the class does not want is rejected by
+    throwing, the way rotation_max_file_size < 512 and interval == 0 are.)"""
+    cn = "quill::RotatingFileSinkConfig"
+    crec = facts.cls(cn, "A")
+    if not crec:
+        raise AnalysisBroken("RotatingFileSinkConfig class record not found")
+    setters = [f for f in facts.fns if f.config == "A" and f.cls == cn and f.base.startswith("set_")]
+    n = 0
+    for f in setters:
+        g = f.g
+        params = {p["did"]: p.get("name") for p in f.rec["params"]}
+        throws = [q for x in f.walk() if x["k"] == "CXXThrowExpr" for q in g.positions(x)]
+        by_field = {}
+        for x in f.walk():
+            if x["k"] == "BinaryOperator" and x["op"] == "=" and is_this_field(x["lhs"]):
+                tgt, rhs = x["lhs"], x["rhs"]
+            elif x["k"] == "CXXOperatorCallExpr" and (x.get("callee") or "").endswith("operator=") and len(x["args"]) == 2 and is_this_field(x["args"][0]):
+                tgt, rhs = x["args"][0], x["args"][1]
+            else:
+                continue
+            used = [v for v in (var_ref(y) for y in walk(rhs)) if v in params]
+            if used:
+                by_field.setdefault(field_name(tgt), []).append((x, rhs, used))
+        for fld, asg in by_field.items():
+            n += 1
+            bad = []
+            for (x, rhs, used) in asg:
+                r = strip(rhs, casts=True)
+                while is_call(r, r"^std::move$") and r.get("args"):
+                    r = strip(r["args"][0], casts=True)
+                plain = var_ref(r) in params
+                conv = is_call(r) and not is_call(r, r"^std::(min|max|clamp)") and any(var_ref(strip(a, casts=True)) in params for a in (r.get("args") or []))
+                if not (plain or conv):
+                    bad.append("%s is assigned a re-interpretation of the argument at %s" % (fld, x["loc"]))
+            pos = [q for (x, rhs, used) in asg for q in g.positions(x)]
+            if g.exists_path([g.entry_node], [g.exit_node], avoid_nodes=pos + throws):
+                bad.append("a path that does not throw leaves %s unassigned" % fld)
+            getter = [m for m in facts.fns if m.config == "A" and m.cls == cn and m.base == f.base[4:]]
+            if getter:
+                rets = [getter[0].g.node_ast(r) for r in getter[0].g.return_nodes()]
+                if not (rets and all(is_this_field(strip(r.get("val"), casts=True), fld) for r in rets)):
+                    bad.append("%s() does not return %s" % (getter[0].base, fld))
+            ctx.ob("C14.R7", "RotatingFileSinkConfig::%s:%s-is-what-was-given" % (f.base, fld), not bad,
+                   "the field takes the caller's argument itself on every path that does not throw, and the getter of the same name returns "
+                   "it (%s)" % ("; ".join(bad) or "ok"), fn=f)
+    ctx.floor("C14.R7", "config fields assigned from a setter's parameter", n, 7)
